@@ -15,6 +15,91 @@ theorem retry_ok_iff : ∀ (script : List Bool), (retry script).2 = script.any i
   | true :: _ => by simp [retry]
   | false :: rest => by simp [retry, retry_ok_iff rest]
 
+/-! ### expandEnv -/
+
+theorem map_error {α β ε} (f : α → β) (x : Except ε α) (e : ε) (h : x.map f = .error e) : x = .error e := by
+  cases x with
+  | error e' => simpa [Except.map] using h
+  | ok a => simp [Except.map] at h
+
+theorem dropWhile_length_le (p : Char → Bool) : ∀ l : List Char, (l.dropWhile p).length ≤ l.length
+  | [] => by simp
+  | a :: l => by
+    simp only [List.dropWhile_cons]
+    split
+    · have := dropWhile_length_le p l; simp; omega
+    · simp
+
+theorem matchVar_length (rest name after : List Char) (h : matchVar rest = some (name, after)) :
+    after.length < rest.length := by
+  unfold matchVar at h
+  split at h
+  · rename_i n ns after' h1 h2
+    simp only [Option.some.injEq, Prod.mk.injEq] at h
+    have := dropWhile_length_le isVarChar rest
+    rw [h2] at this
+    rw [← h.2]
+    simp at this
+    omega
+  · simp at h
+
+theorem refAt_length (l name after : List Char) (h : refAt l = some (name, after)) : after.length + 2 < l.length := by
+  unfold refAt at h
+  split at h
+  · rename_i rest
+    have := matchVar_length rest name after h
+    simp; omega
+  · simp at h
+
+/-- the scan never runs out of fuel when it starts with more fuel than characters -/
+theorem expandGo_no_fuel (env : String → Option String) (tol : Bool) :
+    ∀ (fuel : Nat) (l : List Char), l.length < fuel → expandGo env tol fuel l ≠ .error .fuel := by
+  intro fuel
+  induction fuel with
+  | zero => intro l h; omega
+  | succ fuel ih =>
+    intro l hl he
+    cases l with
+    | nil => simp [expandGo] at he
+    | cons c rest =>
+      have hrest : rest.length < fuel := by simpa using hl
+      unfold expandGo at he
+      split at he
+      · rename_i name after href
+        have hlen : after.length < fuel := by
+          have := refAt_length _ _ _ href
+          simp at this
+          omega
+        split at he
+        · exact ih after hlen (map_error _ _ _ he)
+        · split at he
+          · exact ih after hlen (map_error _ _ _ he)
+          · cases he
+      · exact ih rest hrest (map_error _ _ _ he)
+
+theorem refAt_none_of_ne (c : Char) (rest : List Char) (h : c ≠ '$') : refAt (c :: rest) = none := by
+  unfold refAt
+  split
+  · rename_i heq; injection heq with h1 _; exact absurd h1 h
+  · rfl
+
+/-- a text without `$` is left as it is -/
+theorem expandGo_plain (env : String → Option String) (tol : Bool) :
+    ∀ (l : List Char) (fuel : Nat), l.length < fuel → (∀ c ∈ l, c ≠ '$') → expandGo env tol fuel l = .ok l := by
+  intro l
+  induction l with
+  | nil => intro fuel h _; cases fuel with | zero => omega | succ f => simp [expandGo]
+  | cons c rest ih =>
+    intro fuel h hc
+    cases fuel with
+    | zero => omega
+    | succ f =>
+      unfold expandGo
+      rw [refAt_none_of_ne c rest (hc c (by simp))]
+      simp only
+      rw [ih f (by simpa using h) (fun x hx => hc x (by simp [hx]))]
+      rfl
+
 /-! ### the pass over the config directories -/
 
 /-- when the pass completes, the hashes are those of the directories, in order -/
